@@ -26,4 +26,60 @@ with open(os.path.join(ROOT, "seeded", "INDEX.md"), "w") as f:
     f.write("| id | property | change | needs to manifest | confirmed by us | checks run | result | first failing case |\n|---|---|---|---|---|---|---|---|\n")
     for r in rows:
         f.write("| " + " | ".join(str(x) for x in r) + " |\n")
-print(len(rows), "seeded changes indexed")
+
+# what was added to the machinery after a change was missed on its first run (kept by hand)
+STRENGTHENED = {
+    "C16-writev-replacement-char": "utf8 suite: U+FFFD and the exhaustive table of code points split across slices",
+    "C18-tail-word-store-past-end": "mask suite: slices with spare capacity behind the end, guard bytes checked",
+    "C11-large-readbuffer-drops-glued-frame": "hs-client suite: ReadBufferSize varied per case (frames glued to the 101 response)",
+    "C19-delete-replaces-drained-shard": "`cmapconc park` (operations queued on a held shard lock, any-order oracle) + fact `cmapShardTableFixed`",
+    "C07-parallel-bypassed-when-closed": "par suite: action `c` (dispatch while a local close is in progress)",
+    "C08-splitreader-releases-lock": "`faults file-gap` (a data writer arrives while WriteFile reads its source)",
+    "C09-upgrade-neterror-no-close": "fault kinds `timeout`/`reset` (net.Error), `faults hs-server-stall`, fact `handshakeEntryClosesOnError`",
+    "C13-shared-limiter-count-not-reset": "`sess multi` (three connections of one upgrader share its pooled deflaters; one of them fails an inflation)",
+    "C01-stale-inflater-output": "`sess multi`",
+    "C07-reclaim-blocking-lock": "`faults stall-readloop` + fact `readLoopNeverWaitsForWriteLock`",
+    "C14-broadcaster-close-twice": "own suite: broadcaster closed twice, the released frames re-used at once",
+}
+STRENGTHENED.update(json.load(open(os.path.join(ROOT, "seeded", "strengthened.json"))) if os.path.exists(os.path.join(ROOT, "seeded", "strengthened.json")) else {})
+
+
+def how(d):
+    out = []
+    for p, v in d.get("checks_run", {}).items():
+        vio = [l for l in v["lines"] if l.startswith("VIOLATION")]
+        if not vio:
+            continue
+        kind = "proof obligation / tie, no failing input" if vio[0].endswith("no-failing-input-found") else "failing input"
+        case = ""
+        if v.get("first_violation") and kind == "failing input":
+            try:
+                case = json.loads(v["first_violation"]).get("case", "")
+            except Exception:
+                case = ""
+            case = " `" + " ".join(case.split()[:3])[:48] + "…`" if case else ""
+        out.append(f"{p}: {kind}{case}")
+    return "; ".join(out) if out else "—"
+
+
+lines = ["| seeded change | what it needs to manifest | caught by | first run |", "|---|---|---|---|"]
+n_det = n_first = 0
+for m in sorted(glob.glob(os.path.join(ROOT, "seeded", "*", "meta.json"))):
+    d = json.load(open(m))
+    sid = os.path.basename(os.path.dirname(m))
+    missed_first = sid in STRENGTHENED or any(not e.get("detected", True) for e in d.get("earlier_runs", []))
+    n_det += bool(d.get("detected"))
+    n_first += bool(d.get("detected")) and not missed_first
+    first = "caught" if not missed_first else "missed; then added: " + STRENGTHENED.get(sid, "(see git log)")
+    if not d.get("detected"):
+        first = "**still missed**"
+    lines.append(f"| {sid} | {(d.get('needs_to_manifest') or '')[:150].replace('|', '/')} | {how(d)} | {first} |")
+total = len(lines) - 2
+summary = f"{total} seeded changes; {n_det} detected by the committed checks, {n_first} of them already on their first run.\n"
+dp = os.path.join(ROOT, "DESIGN.md")
+txt = open(dp).read()
+b, e = "<!-- SEEDED-TABLE-BEGIN -->", "<!-- SEEDED-TABLE-END -->"
+if b in txt and e in txt:
+    txt = txt[:txt.index(b) + len(b)] + "\n" + summary + "\n" + "\n".join(lines) + "\n" + txt[txt.index(e):]
+    open(dp, "w").write(txt)
+print(len(rows), "seeded changes indexed;", summary.strip())
